@@ -48,6 +48,22 @@ def _replay(stem, vals):
             msgs.append('strain differs from sym(I-G)')
         if not np.allclose(st.nye, 0, atol=1e-7):
             msgs.append('Nye tensor not zero for a homogeneous deformation (max %g)' % abs(st.nye).max())
+        # the same object re-solved for another state: every derived quantity follows the NEW correspondence tensor
+        _ = st.rotation, st.strain, st.angularvelocity, st.invariant1
+        th = np.radians(5.0)
+        F2 = np.array([[np.cos(th), -np.sin(th), 0], [np.sin(th), np.cos(th), 0], [0, 0, 1.0]]).dot(np.array([[1.0, 0.01, 0], [0, 1.0, 0], [0, 0, 0.99]]))
+        d.box_set(vects=base.box.vects.dot(F2.T))
+        d.atoms.pos[:] = base.atoms.pos.dot(F2.T)
+        st.solve_G()
+        G2 = np.linalg.inv(F2).T
+        w2 = ((np.eye(3) - G2) - (np.eye(3) - G2).T) / 2
+        e2 = ((np.eye(3) - G2) + (np.eye(3) - G2).T) / 2
+        if not np.allclose(st.G, G2[None], atol=1e-8):
+            msgs.append('after re-solving on the same object G is not inv(F2).T')
+        if not np.allclose(st.rotation, w2[None], atol=1e-8):
+            msgs.append('after re-solving on the same object the rotation is still that of the previous state (max deviation %g from skew(I-G))' % abs(st.rotation - w2[None]).max())
+        if not np.allclose(st.strain, e2[None], atol=1e-8):
+            msgs.append('after re-solving on the same object the strain does not follow the new G')
     except Exception as e:
         msgs.append('raised %s: %s' % (type(e).__name__, e))
     return (len(msgs) > 0, '; '.join(msgs[:3]) if msgs else 'float replay on deformed fcc found no disagreement')
